@@ -1,3 +1,9 @@
 ; conversions between float widths are opaque (values are bit patterns)
 (declare-fun f32_to_f64 (Int) Int)
 (declare-fun f64_to_f32 (Int) Int)
+
+; strconv.ParseInt(s, 10, 64): which strings are decimal int64 literals, and their value (abstract)
+(declare-fun dec_int64 (Str) Bool)
+(declare-fun dec_val (Str) Int)
+(assert (forall ((s Str)) (! (=> (dec_int64 s) (and (<= (- 9223372036854775808) (dec_val s)) (<= (dec_val s) 9223372036854775807))) :pattern ((dec_val s)))))
+(assert (forall ((s Str)) (! (=> (dec_int64 s) (and (>= (slen s) 1) (=> (< (dec_val s) 0) (= (select (sarr s) 0) 45)))) :pattern ((dec_int64 s)))))
